@@ -14,7 +14,11 @@ let h (x : byte list) : byte list =
   | None -> let r = keccak256 x in Hashtbl.add hmemo k r; r
 
 let bloom_hex (b : n) = hex_of_bytes (bloom_bytes b)
-let bloom_of_hex (s : string) : n = n_of_be (bytes_of_hex s)
+(* all-zero blooms (most blocks) are recognised on the text: same value, no big-number arithmetic *)
+let bloom_of_hex (s : string) : n =
+  let z = ref true in
+  String.iteri (fun i ch -> if ch <> '0' && not (i = 1 && (ch = 'x' || ch = 'X')) then z := false) s;
+  if !z then N0 else n_of_be (bytes_of_hex s)
 
 (* log := addr:topics:data:tag   topics := - | hex,hex   receipt := e | log;log   receipts := none | receipt|receipt *)
 let parse_log (s : string) : log =
